@@ -1749,6 +1749,8 @@ func (n *node) spawn(factory gen.ProcessFactory, options gen.ProcessOptionsExtra
 func (n *node) unregisterProcess(p *process, reason error) {
 	n.processes.Delete(p.pid)
 	n.RouteTerminatePID(p.pid, reason)
+	// drop the links and monitors this process held as a requester
+	n.targetManager.CleanupConsumer(p.pid)
 
 	if p.application != system.Name {
 		// do not count system app processes
